@@ -209,18 +209,23 @@ func init() {
 				},
 				Run: func(i int64, r *vf.Rec) {
 					c := caseOf(i)
-					routes := []string{"one-do-form", "form-by-form-REPL", "load-file"}
+					routes := []string{"one-do-form", "form-by-form-REPL", "load-file", "leading-blank-lines"}
 					for _, route := range routes {
 						if route == "load-file" && c.wrap > nW {
 							continue // load-file route: wrapper paths of length <= 1
 						}
-						p := build(c.fault, c.wrap, dels[c.del], fillerChoicesOf()[c.fc], route == "one-do-form")
+						p := build(c.fault, c.wrap, dels[c.del], fillerChoicesOf()[c.fc], route == "one-do-form" || route == "leading-blank-lines")
+						if route == "leading-blank-lines" {
+							// the module text itself starts with blank lines and a comment
+							p.text = "\n\n; header\n" + p.text
+							p.faultRow, p.formFrom, p.formTo = p.faultRow+3, p.formFrom+3, p.formTo+3
+						}
 						scope := env.NewSubordinateEnv(base)
 						var err error
 						var pn *lx.Panic
 						module := "mod"
 						switch route {
-						case "one-do-form":
+						case "one-do-form", "leading-blank-lines":
 							var ast types.MalType
 							ast, err = lisp.READ(p.text, types.NewCursorFile("mod"), nil)
 							if err != nil {
